@@ -321,11 +321,11 @@ def scenarios(ctx, exported):
         for q0 in ([7, 23] if ctx.quick else [1, 4, 5, 6, 7, 10, 11, 23, 40]):
             for m in sorted({q0, max(q0 - 3, 0), q0 + 1, q0 + 9, 0}):
                 fs = rnd.choice(FS_ALL)
-                out.append({"case": {"kind": "cbin", "F": F, "q": q0, "r": 0, "meta": m, "quiet": False}, "fs": fs,
+                out.append({"case": {"kind": "cbin", "F": F, "q": q0, "r": 0, "meta": m, "quiet": bool((q0 + m) % 2)}, "fs": fs,
                             "seed": rnd.randrange(2 ** 31)})
             nchunks = -(-q0 // 5)
             for chop in range(1, nchunks):
-                out.append({"case": {"kind": "cbin", "F": F, "q": chop * 5, "r": 0, "meta": q0, "quiet": False,
+                out.append({"case": {"kind": "cbin", "F": F, "q": chop * 5, "r": 0, "meta": q0, "quiet": bool(chop % 2),
                                      "chop": chop}, "q0": q0, "fs": rnd.choice(FS_ALL), "seed": rnd.randrange(2 ** 31)})
     return out
 
